@@ -178,6 +178,8 @@ def gen_case(rng, tier):
                rng.choice([0, 1, 3]), rng.choice([0, 1, 2]), rng.choice([0, 0, 1])]
     n = rng.randint(2, 14 if tier == 'quick' else 24)
     ops = [gen_op(rng, rules, hook_rules, names, weights) for _ in range(n)]
+    if rng.random() < 0.08 and len(ops) > 2:
+        ops.insert(rng.randrange(1, len(ops)), ['churn'])
     return {'ops': ops, 'wsgi_every': rng.choice([0, 1, 1, 3])}
 
 
@@ -343,27 +345,38 @@ def model_key(model, rules):
     return digest([list(model.routes.items()), list(model.names.items()), list(model.hooks.items()), rules])
 
 
-def fresh_for(model, rules):
+def churn_filters(n=140):
+    """Register n routes with pairwise distinct filter specs on a throw-away router: exercises whatever
+    process-wide state route parsing keeps (filter cache) between the edits of the router under test."""
+    import ombott
+    scratch = ombott.Ombott()
+    for i in range(n):
+        scratch.add_route('/churn%d/<x:re(c{%d})>' % (i, i + 1), 'GET', _HANDLERS[0])
+
+
+def fresh_for(model, rules, use_cache=True):
     k = model_key(model, rules)
-    got = _FRESH_CACHE.get(k)
+    got = _FRESH_CACHE.get(k) if use_cache else None
     if got is None:
         app = build_fresh(model)
         got = (app, observe(app, rules, HOOK_RULES, NAMES))
-        if len(_FRESH_CACHE) > 4000:
-            _FRESH_CACHE.clear()
-        _FRESH_CACHE[k] = got
+        if use_cache:
+            if len(_FRESH_CACHE) > 4000:
+                _FRESH_CACHE.clear()
+            _FRESH_CACHE[k] = got
     return got
 
 
-def twin_outcome(prev_model, rules, op):
+def twin_outcome(prev_model, rules, op, use_cache=True):
     k = (model_key(prev_model, rules), repr(op))
-    got = _TWIN_CACHE.get(k)
+    got = _TWIN_CACHE.get(k) if use_cache else None
     if got is None:
         exc = apply_real(build_fresh(prev_model), op)
         got = 'ok' if exc is None else type(exc).__name__
-        if len(_TWIN_CACHE) > 20000:
-            _TWIN_CACHE.clear()
-        _TWIN_CACHE[k] = got
+        if use_cache:
+            if len(_TWIN_CACHE) > 20000:
+                _TWIN_CACHE.clear()
+            _TWIN_CACHE[k] = got
     return got
 
 
@@ -500,8 +513,23 @@ def run_case(case):
     states = set()
     wsgi_every = case.get('wsgi_every', 0)
     n_rejected = n_removed = 0
+    use_cache = True
     for step, op in enumerate(ops):
         kind = op[0]
+        if kind == 'churn':
+            churn_filters()
+            use_cache = False        # references built before the churn hold filter objects from before it
+            log(step, 'churn')
+            res['probes']['op:churn'] += 1
+            # the router under test must answer as before
+            obs = observe(app, rules, hook_rules, NAMES)
+            d = first_diff(prev_obs, obs)
+            if d:
+                violation(res, 'C11:changed-by-unrelated-registrations',
+                          f'after 140 routes with distinct filters were registered on ANOTHER router, the router under '
+                          f'test answers differently: {d}')
+                break
+            continue
         if kind == 'rm_prefix' and model.hook_blocks_prefix(op[1]):
             log(step, 'skip', op)
             res['probes']['skipped:prefix-over-hook'] += 1
@@ -509,7 +537,7 @@ def run_case(case):
         prev_model = model.copy()
         exc = apply_real(app, op)
         # the same edit on an application freshly built from the previous state
-        outcome_twin = twin_outcome(prev_model, rules, op)
+        outcome_twin = twin_outcome(prev_model, rules, op, use_cache)
         outcome = 'ok' if exc is None else type(exc).__name__
         log(step, op, outcome)
         res['probes']['op:' + kind + (':rejected' if exc else '')] += 1
@@ -531,7 +559,7 @@ def run_case(case):
                 violation(res, f'C11:rejected-edit-mutated:{kind}',
                           f'step {step} {op} raised {outcome} but changed the router: {d}')
         try:
-            fresh, obs_fresh = fresh_for(model, rules)
+            fresh, obs_fresh = fresh_for(model, rules, use_cache)
         except Exception as e:   # noqa
             violation(res, f'C11:survivors-unbuildable:{kind}',
                       f'after step {step} {op} ({outcome}) the surviving routes/hooks {sorted(model.routes)} / '
